@@ -233,6 +233,13 @@ def geometricMean(phi: CellVariable):
     
     
 
+def _harmonic(phi_lo, phi_hi, d_lo, d_hi):
+    # width-weighted harmonic mean of adjacent cell values; 0 as soon as one of
+    # them is 0 (as in the 1D loop), instead of 0/0
+    zero = (phi_lo == 0.0) | (phi_hi == 0.0)
+    return (~zero)*phi_hi*phi_lo*(d_hi+d_lo)/(d_hi*phi_lo+d_lo*phi_hi+zero)
+
+
 def harmonicMean(phi: CellVariable):
     """
     Interpolate a mesh-variable defined on mesh-nodes to mesh-faces by harmonic averaging adjacent node values.   
@@ -290,15 +297,15 @@ def harmonicMean(phi: CellVariable):
     elif issubclass(type(phi.domain), Grid2D):
         dx, dy = cell_size_array(phi.domain)
         return FaceVariable(phi.domain,
-            phi._value[1:,1:-1]*phi._value[0:-1,1:-1]*(dx[1:]+dx[0:-1])/(dx[1:]*phi._value[0:-1,1:-1]+dx[0:-1]*phi._value[1:,1:-1]),
-            phi._value[1:-1,1:]*phi._value[1:-1,0:-1]*(dy[:,1:]+dy[:,0:-1])/(dy[:,1:]*phi._value[1:-1,0:-1]+dy[:,0:-1]*phi._value[1:-1,1:]),
+            _harmonic(phi._value[0:-1,1:-1], phi._value[1:,1:-1], dx[0:-1], dx[1:]),
+            _harmonic(phi._value[1:-1,0:-1], phi._value[1:-1,1:], dy[:,0:-1], dy[:,1:]),
             np.array([]))
     elif issubclass(type(phi.domain), Grid3D):
         dx, dy, dz = cell_size_array(phi.domain)
         return FaceVariable(phi.domain,
-            phi._value[1:,1:-1,1:-1]*phi._value[0:-1,1:-1,1:-1]*(dx[1:]+dx[0:-1])/(dx[1:]*phi._value[0:-1,1:-1,1:-1]+dx[0:-1]*phi._value[1:,1:-1,1:-1]),
-            phi._value[1:-1,1:,1:-1]*phi._value[1:-1,0:-1,1:-1]*(dy[:,0:-1]+dy[:,1:])/(dy[:,1:]*phi._value[1:-1,0:-1,1:-1]+dy[:,0:-1]*phi._value[1:-1,1:,1:-1]),
-            phi._value[1:-1,1:-1,1:]*phi._value[1:-1,1:-1,0:-1]*(dz[:,:,0:-1]+dz[:,:,1:])/(dz[:,:,1:]*phi._value[1:-1,1:-1,0:-1]+dz[:,:,0:-1]*phi._value[1:-1,1:-1,1:]))
+            _harmonic(phi._value[0:-1,1:-1,1:-1], phi._value[1:,1:-1,1:-1], dx[0:-1], dx[1:]),
+            _harmonic(phi._value[1:-1,0:-1,1:-1], phi._value[1:-1,1:,1:-1], dy[:,0:-1], dy[:,1:]),
+            _harmonic(phi._value[1:-1,1:-1,0:-1], phi._value[1:-1,1:-1,1:], dz[:,:,0:-1], dz[:,:,1:]))
     
     
 def upwindMean(phi: CellVariable, u: FaceVariable):
